@@ -206,27 +206,43 @@ def _check(ctx, run, flags=(), label="default"):
     guarded(run, r2)
 
     # ---------------- R3 ----------------------------------------------------
+    # the recording chain folded against recording stubs: failWith = record, then leave through the terminator; each layer records
+    # exactly once and hands on the very failure object it was given
     fw = [f for f in prog.fns("UtestShell::failWith") if len(f.params) == 2][0]
-    run.analysed(fw)
-    for p in enumerate_paths(fw, stop=lambda f, n: n["k"] == "CXXMemberCallExpr" and (prog.callee_name(f, n) or "").endswith("exitCurrentTest")):
-        names = [(prog.callee_name(fw, c) or "").split("::")[-1] for c in path_calls(prog, fw, p)]
-        names = [n for n in names if n in ("addFailure", "exitCurrentTest")]
-        run.ob("R3", "failWith = addFailure then terminator%s" % sfx, fw.site, names == ["addFailure", "exitCurrentTest"] and p.end == "stop", witness=names)
     fw1 = [f for f in prog.fns("UtestShell::failWith") if len(f.params) == 1][0]
-    cs = [render(fw1, c) for c in fw1.calls() if (prog.callee_name(fw1, c) or "").endswith("failWith")]
-    run.ob("R3", "failWith(failure) delegates with the current terminator%s" % sfx, fw1.site, [c.replace("UtestShell::", "") for c in cs] == ["failWith(%s, getCurrentTestTerminator())" % fw1.params[0]["name"]], witness=cs)
     af = prog.fn("UtestShell::addFailure")
-    run.analysed(af)
-    for p in enumerate_paths(af):
-        a = [(l, render(af, r)) for l, r, n in assignments(af, p)]
-        cs = [rx(af, c) for c in path_calls(prog, af, p) if (prog.callee_name(af, c) or "").endswith("::addFailure")]
-        run.ob("R3", "UtestShell::addFailure marks the test failed and records once%s" % sfx, af.site, ("hasFailed_", "true") in a and cs == ["getTestResult()->addFailure(%s)" % af.params[0]["name"]], witness={"assign": a, "calls": cs})
     ra = prog.fn("TestResult::addFailure")
-    run.analysed(ra)
-    for p in enumerate_paths(ra):
-        inc = [render(ra, ra.nodes[e]) for e in p.trace if isinstance(e, int) and ra.nodes[e]["k"] == "UnaryOperator" and ra.nodes[e].get("op") == "++"]
-        cs = [render(ra, c) for c in path_calls(prog, ra, p) if (prog.callee_name(ra, c) or "").endswith("printFailure")]
-        run.ob("R3", "TestResult::addFailure counts once and prints once%s" % sfx, ra.site, inc == ["failureCount_++"] and cs == ["output_.printFailure(%s)" % ra.params[0]["name"]], witness={"inc": inc, "print": cs})
+    for f_ in (fw, fw1, af, ra):
+        run.analysed(f_)
+    FAILURE, TERM, RESULT = 300, 400, 200
+
+    def chain_fold(f_, env, inline=()):
+        seq = []
+        hooks = {"UtestShell::addFailure": lambda *a_: (seq.append(("addFailure", a_[-1])), 0)[1], "TestTerminator::exitCurrentTest": lambda o=None, *a_: (seq.append(("exit", o)), 0)[1],
+                 "UtestShell::getCurrentTestTerminator": lambda *a_: TERM, "UtestShell::getTestResult": lambda *a_: RESULT,
+                 "TestResult::addFailure": lambda o=None, *a_: (seq.append(("result.addFailure", o, a_[-1] if a_ else None)), 0)[1],
+                 "TestOutput::printFailure": lambda o=None, *a_: (seq.append(("printFailure", a_[-1] if a_ else None)), 0)[1]}
+        hooks = {k_: v_ for k_, v_ in hooks.items() if k_ != f_.qn and k_ not in inline}
+        ev = Evaluator(prog, f_, env=env, calls=hooks)
+        ev.pass_object = True
+        ev.heap_mode = True
+        ev.inline = set(inline)
+        ev.optional_stubs = set(hooks)
+        try:
+            ev.run_blocks(f_.entry, max_steps=400)
+        except Unknown as u:
+            raise AnalysisBroken("C01.R3: %s cannot be folded: %s" % (f_.qn, u))
+        return seq, ev
+    seq, _ = chain_fold(fw, dict(zip([q["name"] for q in fw.params], (FAILURE, TERM))))
+    run.ob("R3", "failWith folded: the failure is recorded once, then the test is left through the given terminator%s" % sfx, fw.site, seq == [("addFailure", FAILURE), ("exit", TERM)], witness=[str(x) for x in seq])
+    seq, _ = chain_fold(fw1, {fw1.params[0]["name"]: FAILURE}, inline={"UtestShell::failWith"})
+    run.ob("R3", "failWith(failure) folded: records once and leaves through the current terminator%s" % sfx, fw1.site, seq == [("addFailure", FAILURE), ("exit", TERM)], witness=[str(x) for x in seq])
+    seq, ev_ = chain_fold(af, {af.params[0]["name"]: FAILURE, "hasFailed_": 0})
+    run.ob("R3", "UtestShell::addFailure folded: marks the test failed and hands the failure to the result once%s" % sfx, af.site, seq == [("result.addFailure", RESULT, FAILURE)] and ev_.env.get("hasFailed_") in (1, True),
+           witness={"calls": [str(x) for x in seq], "hasFailed_": ev_.env.get("hasFailed_")})
+    seq, ev_ = chain_fold(ra, {ra.params[0]["name"]: FAILURE, "failureCount_": 5})
+    run.ob("R3", "TestResult::addFailure folded: counts once and prints once%s" % sfx, ra.site, seq == [("printFailure", FAILURE)] and ev_.env.get("failureCount_") == 6,
+           witness={"calls": [str(x) for x in seq], "failureCount_": ev_.env.get("failureCount_")})
     # terminators
     r, m = None, None
     base = [x for x in prog.records.get("TestTerminator", {}).get("methods", []) if x["name"] == "exitCurrentTest"]
@@ -324,8 +340,8 @@ def _check(ctx, run, flags=(), label="default"):
                "getCheckCount": "checkCount_", "getFilteredOutCount": "filteredOutCount_"}
     for g, fld in getters.items():
         gf = prog.fn("TestResult::" + g)
-        rets = [render(gf, gf.node(n.get("value"))) for n in gf.walk() if n["k"] == "ReturnStmt"]
-        run.ob("R4", "TestResult::%s returns %s%s" % (g, fld, sfx), gf.site, rets == [fld], witness=rets)
+        rets = getter_fold(prog, gf, fld)
+        run.ob("R4", "TestResult::%s returns %s%s (folded)" % (g, fld, sfx), gf.site, rets == 424242, witness=rets)
     for meth, fld in (("countTest", "testCount_"), ("countRun", "runCount_"), ("countCheck", "checkCount_"), ("countFilteredOut", "filteredOutCount_"), ("countIgnored", "ignoredCount_")):
         cf = prog.fn("TestResult::" + meth)
         ops = [render(cf, n) for n in cf.walk() if n["k"] in ("UnaryOperator", "CompoundAssignOperator", "BinaryOperator") and n.get("op") in ("++", "--", "+=", "-=", "=")]
@@ -388,83 +404,123 @@ def _check(ctx, run, flags=(), label="default"):
         run.ob("R4", "summary folded [isFailure=%d failures=%d colour=%d]: reads OK iff !isFailure and prints every counter under its own label%s" % (isf, fc, col, sfx), pe.site, okk, witness=short(txt.replace("\033", "ESC"), 300))
 
     # ---------------- R5 ----------------------------------------------------
-    ro = prog.fn("UtestShell::runOneTestInCurrentProcess")
-    run.analysed(ro)
-
-    def mt2(f, n):
-        nm = prog.callee_name(f, n) or ""
-        return n["k"] in CALL_KINDS and nm.split("::")[-1] in ("createTest", "run")
-    KEY = ("runAllPreTestAction", "createTest", "run", "destroyTest", "runAllPostTestAction", "setCurrentTest", "setTestResult")
-    for p in enumerate_paths(ro, may_throw=mt2 if have_try else None):
-        seq = []
-        for c in path_calls(prog, ro, p):
-            nm = (prog.callee_name(ro, c) or "").split("::")[-1]
-            if nm in KEY:
-                seq.append(nm if nm not in ("setCurrentTest", "setTestResult") else "%s(%s)" % (nm, rx(ro, ro.args(c)[0]).replace("UtestShell::", "")))
-        core = [s for s in seq if "(" not in s]
-        if p.end == "return":
-            ok = core == ["runAllPreTestAction", "createTest", "run", "destroyTest", "runAllPostTestAction"]
-            cs_ = [s for s in seq if "(" in s]
-            ctx_ok = sorted(cs_[:2]) == ["setCurrentTest(this)", "setTestResult(&%s)" % ro.params[1]["name"]] and sorted(cs_[2:]) == ["setCurrentTest(getCurrent())", "setTestResult(getTestResult())"]
-            run.ob("R5", "normal path: pre < create < run < destroy < post, context saved and restored%s" % sfx, ro.site, ok and ctx_ok, witness=seq)
-        elif p.end == "throw":
-            ok = core[:2] == ["runAllPreTestAction", "createTest"] and core.count("destroyTest") == 1 and "runAllPostTestAction" not in core
-            run.ob("R5", "exceptional path [%s]: the test object is destroyed before the exception continues%s" % (short(p.describe(ro), 60), sfx), ro.site, ok, witness=seq)
-    # the restored values were read before the context was switched
-    okc = True
-    for p in enumerate_paths(ro):
-        if p.end != "return":
-            continue
-        order = []
-        for n in trace_nodes(ro, p):
-            if n["k"] in CALL_KINDS:
-                nm = (prog.callee_name(ro, n) or "").split("::")[-1]
-                if nm in ("getCurrent", "getTestResult"):
-                    order.append("read")
-                if nm in ("setCurrentTest", "setTestResult"):
-                    order.append("write")
-        if order[:2] != ["read", "read"] or "read" in order[2:]:
-            okc = False
-    run.ob("R5", "the context that is restored was read before the context was switched%s" % sfx, ro.site, okc)
+    bracketing_rule(prog, run, "R5", sfx)
     plugin_chain_order(prog, run, "R5")
 
     # ---------------- R6 ----------------------------------------------------
     pf = prog.fn("TestOutput::printFailure")
     run.analysed(pf)
-
-    def expand(f, depth=0):
-        """per path: flat list of (callee, rendered args) with TestOutput helper calls inlined"""
+    # printFailure folded with its helpers inlined against recording print stubs, over (outside the test file, in a helper function)
+    # x the two location formats: the emitted text names the failure's own file directly followed by its own line once, the message
+    # once, and - when the failure is not in the test's own file or function - the test's file and line as well
+    ENV = [e_["v"] for en in prog.enums.values() for e_ in en["enumerators"] if e_["name"] == "visualStudio"]
+    if not ENV:
+        raise AnalysisBroken("C01.R6: enumerator visualStudio not found")
+    for outside, helper, vs in itertools.product((0, 1), (0, 1), (0, 1)):
         out = []
-        for p in enumerate_paths(f, inline=None):
-            seqs = [[]]
-            for c in path_calls(prog, f, p):
-                nm = prog.callee_name(f, c) or ""
-                g = prog.functions.get(c.get("callee", {}).get("mn")) if c.get("callee") else None
-                if nm.startswith("TestOutput::print") and nm.split("::")[-1] not in ("print", "printBuffer") and g is not None and depth < 4:
-                    sub = expand(g, depth + 1)
-                    # substitute arguments textually by parameter position
-                    amap = {q["name"]: render(f, a) for q, a in zip(g.params, f.args(c))}
-                    sub2 = []
-                    for s in sub:
-                        sub2.append([(n2, [amap.get(x.split(".")[0], x) if x.split(".")[0] in amap and "." not in x else (amap[x.split(".")[0]] + x[len(x.split(".")[0]):] if x.split(".")[0] in amap else x) for x in a2]) for n2, a2 in s])
-                    seqs = [s + t for s in seqs for t in sub2]
-                else:
-                    seqs = [s + [(nm.split("::")[-1], [render(f, a) for a in f.args(c)])] for s in seqs]
-            out.extend(seqs)
-        return out
-    fname = pf.params[0]["name"]
-    for i, seq in enumerate(expand(pf)):
-        printed = [a[0] for n, a in seq if n == "print" and a]
-        fn_ = [x for x in printed if x.startswith("%s.getFileName()" % fname)]
-        ln_ = [x for x in printed if x.startswith("%s.getFailureLineNumber()" % fname)]
-        msg = [x for x in printed if x.startswith("%s.getMessage()" % fname)]
-        ok = len(fn_) == 1 and len(ln_) == 1 and len(msg) == 1
-        run.ob("R6", "printFailure path #%d prints file, line and message of the failure once each%s" % (i + 1, sfx), pf.site, ok, witness={"file": fn_, "line": ln_, "message": msg})
+
+        def pr(ev_, *a_):
+            v = a_[-1]
+            if isinstance(v, tuple) and v[0] == "str":
+                out.append(v[1])
+            elif isinstance(v, tuple) and v[0] == "ptr":
+                out.append(ev_.cstring(v))
+            elif isinstance(v, int):
+                out.append(str(v))
+            else:
+                raise Unknown("print of %r" % (v,))
+            return 0
+        pr.wants_ev = True
+        hooks = string_hooks({"TestFailure::getFileName": lambda *a_: ("str", "FAILFILE.cpp"), "TestFailure::getFailureLineNumber": lambda *a_: 4711, "TestFailure::getMessage": lambda *a_: ("str", "THE-MESSAGE"),
+                              "TestFailure::getTestName": lambda *a_: ("str", "THE-TEST"), "TestFailure::getTestNameOnly": lambda *a_: ("str", "THE-TEST"), "TestFailure::getTestFileName": lambda *a_: ("str", "TESTFILE.cpp"),
+                              "TestFailure::getTestLineNumber": lambda *a_: 1234, "TestFailure::isOutsideTestFile": lambda *a_: outside, "TestFailure::isInHelperFunction": lambda *a_: helper,
+                              "TestOutput::getWorkingEnvironment": lambda *a_: ENV[0] if vs else ENV[0] + 1000, "TestOutput::print": pr, "TestOutput::printBuffer": pr})
+        ev = Evaluator(prog, pf, env={pf.params[0]["name"]: 100}, calls=hooks)
+        ev.pass_object = True
+        ev.inline = {g.qn for g in prog.functions.values() if (g.qn.startswith("TestOutput::") or (g.cls is None and g.file == pf.file)) and g.qn not in hooks}
+        ev.optional_stubs = set(hooks)
+        try:
+            ev.run_blocks(pf.entry, max_steps=5000)
+        except Unknown as u:
+            raise AnalysisBroken("C01.R6: printFailure cannot be folded%s: %s" % (sfx, u))
+        text = "".join(out)
+        why = []
+        if len(re.findall(r"FAILFILE\.cpp\W{1,3}4711(?!\d)", text)) != 1 or text.count("FAILFILE.cpp") != 1 or text.count("4711") != 1:
+            why.append("the failure's file and line are not printed once, the line directly after the file")
+        if text.count("THE-MESSAGE") != 1:
+            why.append("the message is printed %d times" % text.count("THE-MESSAGE"))
+        if text.count("THE-TEST") != 1:
+            why.append("the test's name is printed %d times" % text.count("THE-TEST"))
+        if (outside or helper) and len(re.findall(r"TESTFILE\.cpp\W{1,3}1234(?!\d)", text)) != 1:
+            why.append("a failure outside the test's own file / function does not also name the test's file and line")
+        run.ob("R6", "printFailure folded [outside test file=%d, in helper=%d, %s format]: file+line of the failure, the test's name and the message once each%s" % (outside, helper, "Visual Studio" if vs else "Eclipse", sfx), pf.site, not why,
+               witness=text, what="; ".join(why))
     testfailure_ctor_table(prog, run, "R6")
     for g, fld in (("getFileName", "fileName_"), ("getFailureLineNumber", "lineNumber_"), ("getMessage", "message_"), ("getTestName", "testName_")):
         gf = prog.fn("TestFailure::" + g)
-        rets = [render(gf, gf.node(n.get("value"))) for n in gf.walk() if n["k"] == "ReturnStmt"]
-        run.ob("R6", "TestFailure::%s returns %s%s" % (g, fld, sfx), gf.site, rets == [fld], witness=rets)
+        tok = 424242 if fld == "lineNumber_" else ("str", "token-424242")
+        rets = getter_fold(prog, gf, fld, token=tok)
+        run.ob("R6", "TestFailure::%s returns %s%s (folded)" % (g, fld, sfx), gf.site, rets == tok, witness=rets)
+
+
+def bracketing_rule(prog, run, rid, sfx=""):
+    """runOneTestInCurrentProcess folded (shared with C07.R3 and C17.R3): plugin pre actions < create < run < destroy < post actions, each
+    with this test and its result; the context cells are switched for the run and put back; on an exception the object is destroyed."""
+    ro = prog.fn("UtestShell::runOneTestInCurrentProcess")
+    run.analysed(ro)
+    # (a configuration without exceptions has no handlers anywhere in the file: nothing can be thrown through the function)
+    have_try = any(n["k"] == "CXXTryStmt" for g in prog.functions.values() if g.file == ro.file for n in g.walk())
+
+    # folded against a model of the two context cells (current test, current result) and recording stubs for the steps: whatever
+    # helpers or temporaries the function uses, the order of the steps and the context each of them sees is what is judged
+    from cpv.ceval import Thrown
+    THIS, PLUGIN, RESULT_, OLD = 100, 70, 200, (7, 8)
+    for script in (("ok", "ok"),) + ((("throws", "-"), ("ok", "throws")) if have_try else ()):
+        cur, log = {"test": OLD[0], "result": OLD[1]}, []
+
+        def step(name, outcome="ok"):
+            def h(*a_):
+                log.append((name, tuple(x for x in a_ if isinstance(x, int)), (cur["test"], cur["result"])))
+                if outcome == "throws":
+                    raise Thrown(name + " throws", exc="int")
+                return 900 if name == "create" else 0
+            return h
+        hooks = string_hooks({"UtestShell::getCurrent": lambda *a_: cur["test"], "UtestShell::getTestResult": lambda *a_: cur["result"],
+                              "UtestShell::setCurrentTest": lambda *a_: (cur.__setitem__("test", a_[-1]), 0)[1], "UtestShell::setTestResult": lambda *a_: (cur.__setitem__("result", a_[-1]), 0)[1],
+                              "TestPlugin::runAllPreTestAction": step("pre"), "TestPlugin::runAllPostTestAction": step("post"), "UtestShell::createTest": step("create", script[0]),
+                              "Utest::run": step("run", script[1]), "UtestShell::destroyTest": step("destroy"), "TestResult::printVeryVerbose": lambda *a_: 0})
+        ev = Evaluator(prog, ro, env={"this": THIS, ro.params[0]["name"]: PLUGIN, ro.params[1]["name"]: RESULT_}, calls=hooks)
+        ev.pass_object = True
+        ev.heap_mode = True
+        try:
+            end, _ = ev.run_blocks(ro.entry, max_steps=3000)
+        except Unknown as u:
+            raise AnalysisBroken("C01.R5: runOneTestInCurrentProcess cannot be folded%s: %s" % (sfx, u))
+        names = [x[0] for x in log]
+        why = []
+        if script == ("ok", "ok"):
+            if names != ["pre", "create", "run", "destroy", "post"]:
+                why.append("steps %s, expected pre < create < run < destroy < post" % names)
+            else:
+                d_ = {x[0]: x for x in log}
+                if d_["run"][1][:1] != (900,) or d_["destroy"][1][-1:] != (900,):
+                    why.append("the test object created is not the one that is run and destroyed (%s, %s)" % (d_["run"][1], d_["destroy"][1]))
+                if d_["create"][2] != (THIS, RESULT_) or d_["run"][2] != (THIS, RESULT_):
+                    why.append("the test is created / run with (current test, result) = %s / %s, expected this test and its result" % (d_["create"][2], d_["run"][2]))
+                if any(d_[k_][1][-2:] != (THIS, RESULT_) for k_ in ("pre", "post")):
+                    why.append("the plugin actions are not given this test and its result (%s, %s)" % (d_["pre"][1], d_["post"][1]))
+                if d_["pre"][1][:1] != (PLUGIN,) or d_["post"][1][:1] != (PLUGIN,):
+                    why.append("the actions are not run on the plugin chain that was passed in")
+                if (cur["test"], cur["result"]) != OLD:
+                    why.append("the context (current test, result) is %s afterwards, it was %s before" % ((cur["test"], cur["result"]), OLD))
+            if end == "throw":
+                why.append("ends by throwing")
+            run.ob(rid, "normal path folded: pre < create < run < destroy < post, the test runs with itself and its result as the context, the context is put back%s" % sfx, ro.site, not why, witness=[str(x) for x in log], what="; ".join(why))
+        else:
+            what_ = "createTest" if script[0] == "throws" else "the test's run"
+            if names.count("destroy") != 1 or "post" in names or end != "throw" or (script[1] == "throws" and [x[1][-1:] for x in log if x[0] == "destroy"] != [(900,)]):
+                why.append("steps %s, end %s: expected one destroyTest (of the created object), no post action, and the exception to continue" % (names, end))
+            run.ob(rid, "exceptional path folded [%s throws]: the test object is destroyed before the exception continues%s" % (what_, sfx), ro.site, not why, witness=[str(x) for x in log], what="; ".join(why))
 
 
 def check(ctx, run):
